@@ -4,6 +4,7 @@ package p18
 
 import (
 	"fmt"
+	"os"
 	"runtime"
 	"strconv"
 	"strings"
@@ -69,6 +70,13 @@ func (P) Exec(line string) string {
 			toks = strings.Split(f[8], ",")
 		}
 		return runHS(c, toks)
+	case "racerun":
+		// C18 racerun build=.. races=.. mism=..: result of the -race build of this
+		// harness, obtained in Generate (thorough tier).
+		if len(f) != 5 {
+			return "bad-op"
+		}
+		return strings.Join(f[2:], " ")
 	case "par":
 		// C18 par <sub>|<sub>|...  sub = dir;ours;allowSelf;net;host;rejVer;toks
 		if len(f) != 3 {
@@ -290,6 +298,9 @@ func randHS(r *core.Rand) (string, bool, string) {
 
 func (P) Generate(g *core.Gen) {
 	r := g.R
+	if g.Thorough() && os.Getenv("VERIF_NO_RACE") == "" {
+		g.Case("race-detector", true, "C18 racerun "+raceRun([]uint64{g.Seed, g.Seed + 1000, g.Seed + 2000}))
+	}
 	// 1. well-formed handshakes over the version grid, then application traffic.
 	for _, ours := range []int64{70016, 70015, 70012, 70002, 70001, 60001, 60000, 209} {
 		for _, theirs := range pverEdges {
